@@ -216,7 +216,10 @@ func views(s *simrt.Sim) {
 			s.Fail("encode-accepts", "Encode:chips", "Encode(validate=%v) rejected %v: %v", validate, v, err)
 		}
 		if !bytes.Equal(b, want) {
-			s.Fail("wire-format", "chips:elements-share-a-scratch-buffer", "Encode(validate=%v) of %d self-serialising elements whose Encode() returns one shared scratch buffer differs from the layout\nencode: %x\nlayout: %x", validate, n, b, want)
+			// not judged: whether an element's bytes have to be consumed before the next element's Encode() is called is a
+			// contract between serix and the type that C03 does not fix (the unchanged tree copies at once)
+			s.Probe("chips:output-differs-when-elements-share-a-scratch-buffer")
+			return
 		}
 		var back Chips
 		var k int
